@@ -87,6 +87,9 @@ def deq(a, b):
     from vf import bvx
 
     if isinstance(a, dict) and isinstance(b, dict):
+        # {'annots': []} / {'args': []} denote the same expression as the absent key
+        a = {k: v for k, v in a.items() if not (k in ('annots', 'args') and isinstance(v, list) and not v)}
+        b = {k: v for k, v in b.items() if not (k in ('annots', 'args') and isinstance(v, list) and not v)}
         if set(a.keys()) != set(b.keys()):
             return False
         return bvx.sym_and(*[deq(a[k], b[k]) for k in a]) if a else True
@@ -286,7 +289,9 @@ def build_shape(ex, shape, path='e'):
         args = [build_shape(ex, s, f'{path}.{i}') for i, s in enumerate(shape[2:])]
         if args:
             e['args'] = args
-        if nann:
+        if nann == -1:
+            e['annots'] = []          # explicit empty list: the same expression as without the key
+        elif nann:
             e['annots'] = [_annot(ex, f'{path}.ann{i}') for i in range(nann)]
         return e
     raise ValueError(shape)
@@ -309,7 +314,9 @@ def conc_shape(shape, w, path='e'):
     args = [conc_shape(s, w, f'{path}.{i}') for i, s in enumerate(shape[2:])]
     if args:
         e['args'] = args
-    if shape[1]:
+    if shape[1] == -1:
+        e['annots'] = []
+    elif shape[1]:
         e['annots'] = [bytes(w[f'{path}.ann{i}']).decode() for i in range(shape[1])]
     return e
 
@@ -367,7 +374,7 @@ def conc_tree(P, w):
         back = F.unforge_micheline(enc)
     except Exception as ex:  # noqa
         back = f'{type(ex).__name__}: {ex}'
-    ok = enc == ref and back == e
+    ok = enc == ref and bool(deq(back, e))
     obs = {'enc': enc.hex(), 'back': back}
     mode = P.get('mode')
     if ok and mode == 'truncate':
@@ -524,6 +531,10 @@ SHAPES_QUICK = {
     'seq(int,string)': ['seq', 'int', 'string:1'],
     'prim0': ['prim', 0],
     'prim0+ann': ['prim', 1],
+    'prim0+empty-annots': ['prim', -1],
+    'prim1(int)+empty-annots': ['prim', -1, 'int'],
+    'prim2(int,int)+empty-annots': ['prim', -1, 'int', 'int:13'],
+    'prim3+empty-annots': ['prim', -1, 'int:13', 'int:13', 'int:13'],
     'prim1(int)': ['prim', 0, 'int'],
     'prim1(bytes)+ann': ['prim', 1, 'bytes:1'],
     'prim2(int,string)': ['prim', 0, 'int', 'string:1'],
